@@ -221,6 +221,20 @@ def check(tier, seed):
                                                        "overlapping_fields_can_be_merged.*"], "bound": "%d parseable documents (%d accepted and executed)" % (n, valid)})
     run.sample({"document": ADVERSARIAL[1], "contract": "validate_ast returns its error list without raising; if empty, execution == reference"})
     run.assume("no deductive obligation yet: exception-escape analysis over the visitor-based validator is outside the VC generator's subset")
+    # static escape obligations over the validator's source (explicit raises, guarded schema lookups)
+    from vf import escapestatic
+    backend = "explicit-raise / guard analysis"
+    eobs = escapestatic.obligations()
+    if not eobs:
+        raise MachineryDefect("no escape obligation generated")
+    run.cov["functions_under_contract"].append("py_gql.validation.* (explicit exception escape)")
+    for o in eobs:
+        run.cov["obligations"] += 1
+        run.cov["backends"][backend] = run.cov["backends"].get(backend, 0) + 1
+        if o["holds"]:
+            run.cov["discharged"] += 1
+        else:
+            run.violation(o["id"], o["detail"], {"site": o["id"], "detail": o["detail"]}, False, extra={"obligation": o["id"], "solver": backend, "solver_status": "refuted"})
     return run.finish("other", "bounded stand-in: validate_ast never raises on any enumerated parseable document; every accepted operation executes without "
                                "internal exception and with the shape the reference executor determines",
                       checker_cmd="./check C05 --tier %s" % tier)
